@@ -21,45 +21,59 @@ def split_oracle(n, k, kind):
     src = list(range(100, 100 + n)) if kind == 'list' else {f'k{j}': 100 + j for j in range(n)}
     with warnings.catch_warnings():
         warnings.simplefilter('ignore')
-        ds = lazy_dataset.new(src)
-        if k < 1 or k > n:
-            r = outcome(lambda: ds.split(k), lambda x: len(x))
-            if r != {'err': 'ValueError'}:
-                out.append(('reject', {'n': n, 'k': k, 'got': r}))
-            r2 = outcome(lambda: ds.shard(k, 0), lambda x: 'dataset')
-            if 'ok' in r2:
-                out.append(('reject_shard', {'n': n, 'k': k, 'got': r2}))
-            return out
-        parts = ds.split(k)
-        lists = [list(p) for p in parts]
-        if len(parts) != k:
-            out.append(('count', {'n': n, 'k': k, 'got': len(parts)}))
-        flat = [x for l in lists for x in l]
-        if flat != list(ds):
-            out.append(('concat_reproduces', {'n': n, 'k': k, 'shards': lists}))
-        sizes = [len(l) for l in lists]
-        if sizes and max(sizes) - min(sizes) > 1:
-            out.append(('sizes_differ_by_one', {'n': n, 'k': k, 'sizes': sizes}))
-        if [len(p) for p in parts] != sizes:
-            out.append(('len_of_shards', {'n': n, 'k': k}))
-        for i in range(-k, k):
-            s = list(ds.shard(k, i))
-            if s != lists[i]:
-                out.append(('shard_eq_split', {'n': n, 'k': k, 'i': i, 'shard': s, 'split': lists[i]}))
-                break
-        if kind == 'dict':
-            keys = [list(p.keys()) for p in parts]
-            if [x for l in keys for x in l] != list(ds.keys()):
-                out.append(('keys_partition', {'n': n, 'k': k, 'keys': keys}))
-            # the keyed views of the shards: items() pairs and lookups by the shard's own keys
-            items = [outcome(lambda: list(p.items()), lambda x: x) for p in parts]
-            want = [list(zip(ks, l)) for ks, l in zip(keys, lists)]
-            if [it.get('ok') for it in items] != want:
-                out.append(('items_partition', {'n': n, 'k': k, 'items': items, 'want': want}))
-            for p, ks, l in zip(parts, keys, lists):
-                if [outcome(lambda: p[kk]) for kk in ks] != [{'ok': v} for v in l]:
-                    out.append(('shard_key_lookup', {'n': n, 'k': k, 'keys': ks}))
-                    break
+        base = lazy_dataset.new(src)
+        # the dataset that is split: a source, or itself a selection (whose keys() may have been asked before)
+        parents = [base]
+        if n and k >= 1:
+            sl = base[:]
+            if kind == 'dict':
+                sl.keys()
+            parents.append(sl)
+            if kind == 'dict':
+                so = base.sort()
+                so.keys()
+                parents.append(so)
+    for ds in parents:
+      with warnings.catch_warnings():
+          warnings.simplefilter('ignore')
+          if k < 1 or k > n:
+              r = outcome(lambda: ds.split(k), lambda x: len(x))
+              if r != {'err': 'ValueError'}:
+                  out.append(('reject', {'n': n, 'k': k, 'got': r}))
+              r2 = outcome(lambda: ds.shard(k, 0), lambda x: 'dataset')
+              if 'ok' in r2:
+                  out.append(('reject_shard', {'n': n, 'k': k, 'got': r2}))
+              return out
+          parts = ds.split(k)
+          lists = [list(p) for p in parts]
+          if len(parts) != k:
+              out.append(('count', {'n': n, 'k': k, 'got': len(parts)}))
+          flat = [x for l in lists for x in l]
+          if flat != list(ds):
+              out.append(('concat_reproduces', {'n': n, 'k': k, 'shards': lists}))
+          sizes = [len(l) for l in lists]
+          if sizes and max(sizes) - min(sizes) > 1:
+              out.append(('sizes_differ_by_one', {'n': n, 'k': k, 'sizes': sizes}))
+          if [len(p) for p in parts] != sizes:
+              out.append(('len_of_shards', {'n': n, 'k': k}))
+          for i in range(-k, k):
+              s = list(ds.shard(k, i))
+              if s != lists[i]:
+                  out.append(('shard_eq_split', {'n': n, 'k': k, 'i': i, 'shard': s, 'split': lists[i]}))
+                  break
+          if kind == 'dict':
+              keys = [list(p.keys()) for p in parts]
+              if [x for l in keys for x in l] != list(ds.keys()):
+                  out.append(('keys_partition', {'n': n, 'k': k, 'keys': keys}))
+              # the keyed views of the shards: items() pairs and lookups by the shard's own keys
+              items = [outcome(lambda: list(p.items()), lambda x: x) for p in parts]
+              want = [list(zip(ks, l)) for ks, l in zip(keys, lists)]
+              if [it.get('ok') for it in items] != want:
+                  out.append(('items_partition', {'n': n, 'k': k, 'items': items, 'want': want}))
+              for p, ks, l in zip(parts, keys, lists):
+                  if [outcome(lambda: p[kk]) for kk in ks] != [{'ok': v} for v in l]:
+                      out.append(('shard_key_lookup', {'n': n, 'k': k, 'keys': ks}))
+                      break
     return out
 
 
